@@ -295,8 +295,8 @@ func runC06(e *env) {
 			}
 			enums = append(enums, fmt.Sprintf("{| de_name := %s; de_members := %s; de_values := %s; de_iota := %s; de_file := %s |}", coqStr(en.Name), coqStrList(en.Members), vals, coqBool(en.Iota), coqStr(en.File)))
 		}
-		cases = append(cases, fmt.Sprintf("{| c6_prog := %s;\n c6_enums := %s;\n c6_ana := %s;\n c6_files := %s;\n c6_classes := %s;\n c6_unions := %s;\n c6_denums := %s |}",
-			o.Facts, o.Enums, o.Ana, coqListNL(files), coqListNL(classes), coqListNL(unions), coqListNL(enums)))
+		cases = append(cases, fmt.Sprintf("{| c6_root := %s;\n c6_prog := %s;\n c6_enums := %s;\n c6_ana := %s;\n c6_files := %s;\n c6_classes := %s;\n c6_unions := %s;\n c6_denums := %s |}",
+			coqStr(o.Gen["dart_root"].Text), o.Facts, o.Enums, o.Ana, coqListNL(files), coqListNL(classes), coqListNL(unions), coqListNL(enums)))
 		inputs = append(inputs, map[string]interface{}{"module": spec, "files": ir.Files, "classes": ir.Classes, "unions": ir.Unions, "enums": ir.Enums, "class": firstNonEmpty(spec.Class, classifyDartLinks(ir))})
 		if len(cases) == 4 {
 			e.writeCases2(fmt.Sprintf("cases_C06_%d", len(e.m.CaseFiles)), anaHeader+"From GM Require Import Model.Fields Model.Dart Corr.Check_C06.\n", "mismatches", "prop_failures", cases, inputs)
